@@ -128,3 +128,60 @@ Theorem forgetful_rejected_and_wrong :
   /\ let e := EnvL [] [("params"%string, [EnvL [] []])] in
      render forgetful e = [GOpen; GReport; GClose; GHandler; GClose] /\ stops_after_report (render forgetful e) = false.
 Proof. vm_compute. repeat split; reflexivity. Qed.
+
+
+(** * criteria as automata: segment-wise closed terms render closed texts, under every environment *)
+Section AutomatonProofs.
+Variable S : Type.
+Variable step : S -> gtok -> option S.
+Variable s0 : S.
+Variable is_s0 : S -> bool.
+Hypothesis is_s0_spec : forall s, is_s0 s = true -> s = s0.
+
+Lemma run_app : forall a b s, run S step s (a ++ b) = match run S step s a with Some s' => run S step s' b | None => None end.
+Proof. induction a as [|g a IH]; intros b s; [reflexivity|]. cbn [app run]. destruct (step s g); [apply IH|reflexivity]. Qed.
+
+Lemma closed_run l : closed_text S step s0 is_s0 l = true -> run S step s0 l = Some s0.
+Proof. unfold closed_text. destruct (run S step s0 l) as [s|]; [|discriminate]. intro H. rewrite (is_s0_spec s H). reflexivity. Qed.
+
+Lemma run_closed l : run S step s0 l = Some s0 -> is_s0 s0 = true -> closed_text S step s0 is_s0 l = true.
+Proof. intros H H0. unfold closed_text. rewrite H. exact H0. Qed.
+
+Hypothesis s0_is_s0 : is_s0 s0 = true.
+
+Lemma closed_app a b : closed_text S step s0 is_s0 a = true -> closed_text S step s0 is_s0 b = true ->
+  closed_text S step s0 is_s0 (a ++ b) = true.
+Proof.
+  intros Ha Hb. apply run_closed; [|exact s0_is_s0]. rewrite run_app. rewrite (closed_run a Ha). apply closed_run. exact Hb.
+Qed.
+
+Lemma closed_flat_map {A} (f : A -> list gtok) : forall l,
+  (forall x, closed_text S step s0 is_s0 (f x) = true) -> closed_text S step s0 is_s0 (flat_map f l) = true.
+Proof.
+  induction l as [|x l IH]; intro H; [apply run_closed; [reflexivity|exact s0_is_s0]|].
+  cbn [flat_map]. apply closed_app; [apply H|apply IH; exact H].
+Qed.
+
+Theorem segments_closed_sound : forall t, segments_closed S step s0 is_s0 t = true ->
+  forall e, closed_text S step s0 is_s0 (render t e) = true.
+Proof.
+  induction t as [|l|c a IHa b IHb|r a IHa b IHb|a IHa b IHb]; cbn [segments_closed render]; intros H e.
+  - apply run_closed; [reflexivity|exact s0_is_s0].
+  - exact H.
+  - apply andb_true_iff in H. destruct H as [Ha Hb]. destruct (cond_of e c); auto.
+  - apply andb_true_iff in H. destruct H as [Ha Hb]. destruct (range_of e r) as [|e0 es]; [auto|].
+    apply closed_flat_map. intro x. auto.
+  - apply andb_true_iff in H. destruct H as [Ha Hb]. apply closed_app; auto.
+Qed.
+End AutomatonProofs.
+
+(** the strict tail *)
+Lemma is_idle_spec : forall s, is_idle s = true -> s = TIdle.
+Proof. intros [| | |]; simpl; intro H; try discriminate; reflexivity. Qed.
+
+Theorem strict_segments_sound : forall t, strict_segments_ok t = true -> forall e, visits_guarded (render t e) = true.
+Proof. intros t H e. apply (segments_closed_sound tail_state tail_step TIdle is_idle is_idle_spec eq_refl t H e). Qed.
+
+Theorem tail_without_else_refuted :
+  visits_guarded tail_of_the_templates = true /\ visits_guarded tail_without_else = false.
+Proof. vm_compute. split; reflexivity. Qed.
